@@ -2,20 +2,21 @@
 // property: C12
 // harness-file: peer.rs
 // harness: c12_step_unchoke
+// config: 
 // failed-check: a piece stays marked as being fetched although no connected, non-choking peer is asked for it (stale reservation) @ ../vh/peer.rs:283:5 in function peer::verif_kani::manager_step
-// native-result: /var/tmp/rdest-verif.C12.11143/vh/peer.rs:283:5: a piece stays marked as being fetched although no connected, non-choking peer is asked for it (stale reservation)
+// native-result: /var/tmp/rdest-verif.C12.30527/cfg-default/vh/peer.rs:283:5: a piece stays marked as being fetched although no connected, non-choking peer is asked for it (stale reservation)
 // rerun: cd /verif && ./check C12 --replay /verif/evidence/replay/C12-c12_step_unchoke.rs
 /// Test generated for harness `peer::verif_kani::c12_step_unchoke` 
 ///
 /// Check for `assertion`: ""a piece stays marked as being fetched although no connected, non-choking peer is asked for it (stale reservation)""
 
 #[test]
-fn kani_concrete_playback_c12_step_unchoke_11631646694137589570() {
+fn kani_concrete_playback_c12_step_unchoke_704448909269026194() {
     let concrete_vals: Vec<Vec<u8>> = vec![
-        // 252
-        vec![252],
-        // 253
-        vec![253],
+        // 246
+        vec![246],
+        // 247
+        vec![247],
         // 1ul
         vec![1, 0, 0, 0, 0, 0, 0, 0],
         // 253
@@ -32,54 +33,6 @@ fn kani_concrete_playback_c12_step_unchoke_11631646694137589570() {
         vec![1],
         // 2ul
         vec![2, 0, 0, 0, 0, 0, 0, 0],
-        // 1
-        vec![1],
-        // 255
-        vec![255],
-        // 255
-        vec![255],
-        // 255
-        vec![255],
-        // 255
-        vec![255],
-        // 255
-        vec![255],
-        // 255
-        vec![255],
-        // 255
-        vec![255],
-        // 255
-        vec![255],
-        // 255
-        vec![255],
-        // 255
-        vec![255],
-        // 255
-        vec![255],
-        // 255
-        vec![255],
-        // 255
-        vec![255],
-        // 255
-        vec![255],
-        // 255
-        vec![255],
-        // 255
-        vec![255],
-        // 255
-        vec![255],
-        // 255
-        vec![255],
-        // 255
-        vec![255],
-        // 255
-        vec![255],
-        // 0
-        vec![0],
-        // 1
-        vec![1],
-        // 1
-        vec![1],
         // 0
         vec![0],
         // 1
@@ -88,8 +41,16 @@ fn kani_concrete_playback_c12_step_unchoke_11631646694137589570() {
         vec![1],
         // 1
         vec![1],
+        // 0
+        vec![0],
         // 1
         vec![1],
+        // 0
+        vec![0],
+        // 0
+        vec![0],
+        // 0
+        vec![0],
         // 1
         vec![1],
         // 1ul
@@ -150,8 +111,8 @@ fn kani_concrete_playback_c12_step_unchoke_11631646694137589570() {
         vec![1],
         // 1
         vec![1],
-        // 1ul
-        vec![1, 0, 0, 0, 0, 0, 0, 0],
+        // 2ul
+        vec![2, 0, 0, 0, 0, 0, 0, 0],
     ];
     kani::concrete_playback_run(concrete_vals, c12_step_unchoke);
 }
